@@ -15,7 +15,7 @@ TEXT = {
  "C09": "Coq theorem exec_no_crash: for every syntax tree, profile, input, fault positions and fuel, execution never reaches a panic / unchecked-unsafe site of the model (global invariant by induction on fuel over all 14 interpreter functions); tied by EXEC on ill-typed programs in debug and release with crash detection.",
  "C10": "Coq theorems as pinned + repeated executions in one process, in fresh processes and through the rrss binary must be byte-identical; model (which has no hash order) = implementation.",
  "C11": "Coq theorems as pinned + EXEC-poetic correspondence and the exact-decimal oracle (exact below 2^53, <= 8 ulp otherwise).",
- "C12": "Coq theorems as pinned + LEX correspondence (token type, payload, spelling, offset, range, post-state) and an independent recomputation of true line/column on the implementation's tokens.",
+ "C12": "Coq theorem lex_stream: for every source < 4 GiB and both profiles the lexer model returns tokens, and the source is exactly gap,token,gap,...,gap with ignorable gaps (never a line feed) and every token (incl. staged 's/'re suffixes and tokens after multi-line strings/comments) a non-empty slice at its recorded byte offset whose range is the true (line, byte column) of its first byte and the position just past its last byte; corollaries: order, non-overlap, what `true line/column` means; tied by LEX correspondence (type, payload, spelling, offset, range, post-state) and an independent recomputation of line/column on the implementation's tokens.",
  "C13": "Coq theorems as pinned + fault-injection oracle (Err, reported line = fault line) and PARSE correspondence on code, line and message.",
  "C14": "Coq theorems over the value model (equality symmetry on all well-formed nested values, compare duality incl. errors, <=&>= = equality, logic vs truthiness, bool build/knock) for all values; tied by exhaustive UxU correspondence in debug and release, the laws re-checked on the implementation's answers and at the program level through every operator spelling.",
  "C15": "Coq theorems as pinned + renaming/re-casing oracle on generated programs (fresh names of all three kinds, accented letters) and model = implementation.",
